@@ -508,6 +508,15 @@ func c10RedirectOf(text string) string {
 	return ""
 }
 
+func c10JoinLines(ls []c10Line) string {
+	var sb strings.Builder
+	sb.WriteString("\n")
+	for _, l := range ls {
+		sb.WriteString(l.Text + "\n")
+	}
+	return sb.String()
+}
+
 func c10IsReport(text string, m *c10Model, i int) bool {
 	if m != nil && m.OK {
 		return m.Lines[i].Kind == "cmd"
@@ -626,7 +635,7 @@ func c10Fold(c *Ctx, cs *c10Case, m *c10Model, o *c10Outcome, shrink bool) {
 // ---- runner ----
 
 func runC10(c *Ctx) {
-	c.Res.Rule = "interactive, two script streams on generated profiles (labels, inlining, 1-4 sample types, multi-component absolute file names /build/remote/checkout/proj/src/<pkg>/<file>.go, seven scratch source trees whose basenames are / are not components of those names): (a) ~55% free-form scripts (output file names are reused across commands and shared with output=; user-named files persist between lines and a line's files are those it wrote, byte for byte); (d) 10% undeliverable-output scripts (reports sent to unwritable targets or through missing post-processors, then ordinary probes); (c) 10% file-reuse scripts (long report then short report into the same file, via >file or output=, same command twice); (a cont.) — 50% report commands with focus/ignore/count/-cum/>file arguments, 30% assignments of every option incl. invalid values, shortcuts, built-ins, junk; (b) 40% toggle scripts — ONE option (40% source_path/trim_path, else any of the 31 content-relevant options) re-assigned to 2-3 different output-changing values, v1 v2 v3 v1 …, with the same file-/value-sensitive probe command after every re-assignment (list, weblist, top/tree/dot at file or line granularity, traces, tags, callgrind …) and noise reports in between. Real pprof binary, one process per session; every probed line's transcript+files is compared with a fresh session replaying only the assignment lines before it; the Lean model classifies the lines, predicts the options shown by `o` and what each command's arguments contribute (desugared reference). real-binary stream (3 scripts + 2 web cases per quick run): sample.bin/sample.cpu of the tree with the default binutils ObjTool, list/weblist/disasm and /source,/disasm repeated within one session/process; web: each case in five child processes (ref / seq / conc / stall / multi), non-URL options as flags, every 4th profile large enough for pages > 64 KiB: references from a process that serves only the probed requests; r after other requests; the first 12 page renders of a process simultaneously, then r alone, then r among the others; responses still being written to a stalling slow-client ResponseWriter while other URLs are rendered (GOMAXPROCS=1 and N); three sessions over different profiles (A, small B, large C) alive in one process with interleaved requests, each answer vs that profile's fresh-process answer. non-trivial = at least one compared probe is preceded by an executed report command (interactive) / by ≥1 other view request with filter parameters (web); distinct by script text"
+	c.Res.Rule = "interactive, two script streams on generated profiles (labels, inlining, 1-4 sample types, multi-component absolute file names /build/remote/checkout/proj/src/<pkg>/<file>.go, seven scratch source trees whose basenames are / are not components of those names): (a) ~55% free-form scripts (output file names are reused across commands and shared with output=; user-named files persist between lines and a line's files are those it wrote, byte for byte); (d) 10% undeliverable-output scripts (reports sent to unwritable targets or through missing post-processors, then ordinary probes); (e) 8 FIXED repeat scripts, the same whatever the seed: representative lines (top5, tree3, text2, top 5, peek/list/traces/tags/dot3/callgrind2, o, help) each issued 3 times in one session with other commands and assignments in between, every occurrence probed; (c) 10% file-reuse scripts (long report then short report into the same file, via >file or output=, same command twice); (a cont.) — 50% report commands with focus/ignore/count/-cum/>file arguments, 30% assignments of every option incl. invalid values, shortcuts, built-ins, junk; (b) 40% toggle scripts — ONE option (40% source_path/trim_path, else any of the 31 content-relevant options) re-assigned to 2-3 different output-changing values, v1 v2 v3 v1 …, with the same file-/value-sensitive probe command after every re-assignment (list, weblist, top/tree/dot at file or line granularity, traces, tags, callgrind …) and noise reports in between. Real pprof binary, one process per session; every probed line's transcript+files is compared with a fresh session replaying only the assignment lines before it; the Lean model classifies the lines, predicts the options shown by `o` and what each command's arguments contribute (desugared reference). real-binary stream (3 scripts + 2 web cases per quick run): sample.bin/sample.cpu of the tree with the default binutils ObjTool, list/weblist/disasm and /source,/disasm repeated within one session/process; web: each case in five child processes (ref / seq / conc / stall / multi), non-URL options as flags, every 4th profile large enough for pages > 64 KiB: references from a process that serves only the probed requests; r after other requests; the first 12 page renders of a process simultaneously, then r alone, then r among the others; responses still being written to a stalling slow-client ResponseWriter while other URLs are rendered (GOMAXPROCS=1 and N); three sessions over different profiles (A, small B, large C) alive in one process with interleaved requests, each answer vs that profile's fresh-process answer. non-trivial = at least one compared probe is preceded by an executed report command (interactive) / by ≥1 other view request with filter parameters (web); distinct by script text"
 	if c.Replay != "" {
 		var cs c10Case
 		if err := c.LoadReplay(&cs); err != nil {
@@ -703,6 +712,23 @@ func runC10(c *Ctx) {
 			}
 		}
 		jobs[i] = &job{cs: cs, m: m}
+	}
+	// repeat scripts: fixed histories, the same in every run; profiles with all 12 functions
+	for _, lines := range c10RepeatScripts() {
+		p := c10GenProfileSized(r, 30+r.Intn(20), 7)
+		for len(p.Function) < 10 {
+			p = c10GenProfileSized(r, 30+r.Intn(20), 7)
+		}
+		b, _ := c10WriteU(p)
+		cs := &c10Case{Kind: "interactive", Profile: hex.EncodeToString(b), Lines: lines}
+		m := c10AskModel(c, p, lines)
+		for j, l := range lines { // probe every occurrence of a repeated line, first ones included
+			if l.Intent != "assign" && (strings.Count(c10JoinLines(lines), "\n"+l.Text+"\n") > 1) {
+				cs.Probes = append(cs.Probes, j)
+			}
+		}
+		jobs = append(jobs, &job{cs: cs, m: m})
+		c.Res.Hit("repeat-script")
 	}
 	// real-binary stream: the tree's own sample.bin/sample.cpu pair with the default ObjTool
 	realHex, realWhy := c10RealProfile()
